@@ -109,6 +109,21 @@ Definition parse_expr (s : str) : option (pat * list str) :=
 Definition pat_of (s : str) : option pat :=
   match parse_expr s with Some (p, _) => Some p | None => None end.
 
+(** wildcard names: two expressions with the same pattern must use the same key
+    names (tree.go addNode: "wildcard keys differ"); for a pattern ending in a
+    free wildcard only the name of the free wildcard must agree ("free wildcard
+    name doesn't match"; the other names are overwritten, finding C03-F3) *)
+Definition ends_catchall (p : pat) : bool :=
+  match rev p with C :: _ => true | _ => false end.
+
+Definition keys_compat (a b : str) : bool :=
+  match parse_expr a, parse_expr b with
+  | Some (p, ka), Some (q, kb) =>
+    negb (pat_eqb p q) ||
+    (if ends_catchall p then str_eqb (last ka []) (last kb []) else list_eqb str_eqb ka kb)
+  | _, _ => true
+  end.
+
 (** the bytes up to the next '/' and the rest *)
 Fixpoint take_seg (s : str) : str * str :=
   match s with
